@@ -16,8 +16,8 @@ type gen struct {
 
 func (g *gen) can() int { g.canary++; return g.canary }
 
-var classTexts = []string{"public", "sensitive", "secret", "Secret", "PUBLIC", "bogus", ""}
-var opTexts = []string{"", "redact", "encrypt", "hmac-sha256", "HMAC-SHA256", "Redact", "bogus", "unknown"}
+var classTexts = []string{"public", "sensitive", "secret", "Secret", "PUBLIC", "bogus", "", "secret ", " secret", "SECRET", "sensitive\t", "publi"}
+var opTexts = []string{"", "redact", "encrypt", "hmac-sha256", "HMAC-SHA256", "Redact", "bogus", "unknown", "encrypt ", " redact", "Hmac-Sha256", "hmac", "none"}
 
 func sp(s string) *string { return &s }
 
@@ -53,7 +53,14 @@ func (g *gen) leaf() *V {
 		n := g.r.Intn(5) // 0 .. 4 elements: loops over the elements have boundaries at the first and the last one
 		v := &V{K: "strs"}
 		for i := 0; i < n; i++ {
-			v.Cs = append(v.Cs, g.can())
+			switch {
+			case i > 0 && g.r.Chance(1, 5):
+				v.Cs = append(v.Cs, v.Cs[g.r.Intn(i)]) // an element equal to an earlier one (adjacent or not)
+			case g.r.Chance(1, 8):
+				v.Cs = append(v.Cs, 0) // an empty element
+			default:
+				v.Cs = append(v.Cs, g.can())
+			}
 		}
 		return v
 	case 5:
@@ -141,6 +148,9 @@ func (g *gen) value(depth int) *V {
 				return &V{K: "ptr", Elem: l}
 			}
 			return l
+		}
+		if g.r.Bool() {
+			return g.emb()
 		}
 		return g.unexp()
 	default:
@@ -322,8 +332,8 @@ func (g *gen) mapv(depth int) *V {
 	return v
 }
 
-var tagClasses = []string{"public", "sensitive", "secret", "secret", "sensitive", "bogus", ""}
-var tagOps = []string{"", "", "redact", "encrypt", "hmac-sha256", "Encrypt", "bogus"}
+var tagClasses = []string{"public", "sensitive", "secret", "secret", "sensitive", "bogus", "", "Secret", "secret ", "SECRET", " public"}
+var tagOps = []string{"", "", "redact", "encrypt", "hmac-sha256", "Encrypt", "bogus", "HMAC-SHA256", "encrypt ", "none", "unknown"}
 
 func (g *gen) ptag(ptr string) PTag {
 	c := tagClasses[g.r.Intn(5)]
@@ -537,6 +547,18 @@ func (g *gen) localOf(name string) *V {
 	return &V{K: "hand", Hand: "LocalE", Fields: []Field{{Name: "Key", Tag: sp("secret"), V: s()}, {Name: "Note", V: strs(1)}, {Name: "Secret", Tag: sp("public"), V: s()}, {Name: "Extra", Tag: sp("sensitive"), V: &V{K: "bytes", C: g.can()}}}}
 }
 
+// a struct with an embedded struct: exported (walked like any struct field) or unexported (not reachable: F10)
+func (g *gen) emb() *V {
+	if g.r.Bool() {
+		return &V{K: "hand", Hand: "EmbA", Fields: []Field{
+			{Name: "EmbInner", V: &V{K: "hand", Hand: "EmbInner", Fields: []Field{{Name: "Sec", Tag: sp("secret"), V: &V{K: "str", C: g.can()}}, {Name: "Pub", Tag: sp("public"), V: &V{K: "str", C: g.can()}}}}},
+			{Name: "Unt", V: &V{K: "str", C: g.can()}}}}
+	}
+	return &V{K: "hand", Hand: "EmbU", Fields: []Field{
+		{Name: "embHidden", V: &V{K: "hand", Hand: "embHidden", Fields: []Field{{Name: "Sec", Tag: sp("secret"), V: &V{K: "str", C: g.can()}}, {Name: "N", V: &V{K: "int", I: int64(g.r.Intn(3))}}}}},
+		{Name: "Sens", Tag: sp("sensitive"), V: &V{K: "str", C: g.can()}}}}
+}
+
 func (g *gen) unexp() *V {
 	return &V{K: "hand", Hand: "UnexpA", Fields: []Field{
 		{Name: "hidden", V: &V{K: "int", I: int64(g.r.Intn(3))}}, // 0 now and then: nothing to lose
@@ -692,6 +714,14 @@ func (g *gen) cfg() Cfg {
 		if g.r.Chance(1, 3) {
 			c.EncFail = append(c.EncFail, g.r.Intn(6))
 		}
+		c.ErrK = g.r.Intn(7)
+		if g.r.Chance(1, 4) {
+			c.Wrap, c.EncFail = "keyid", nil
+		}
 	}
+	if g.r.Chance(1, 4) {
+		c.Ctx = []string{"cancelled", "deadline", "custom", "cause", "inflight"}[g.r.Intn(5)]
+	}
+	c.EmptyOv = g.r.Chance(1, 8)
 	return c
 }
